@@ -99,6 +99,9 @@ TABLE = [
     ('#FOREACH(a,b,c)(n,[n],; , & )', '[a]; [b] & [c]', '[a]; [b] &amp; [c]', {}),
     ('#FOREACH(a,b,c)(n,n, < , > )', 'a < b > c', 'a &lt; b &gt; c', {}),
     ('#FOREACH(a,b)(n,n, & )', 'a & b', 'a &amp; b', {}),
+    ('#FOR1,2(<n>,[<n>])', '[1][2]', '[1][2]', {}),
+    ('#FOREACH(a,b)(&,(&))', '(a)(b)', '(a)(b)', {}),
+    ('#FOR1,3(<i>,<i>, & )', '1 & 2 & 3', '1 &amp; 2 &amp; 3', {}),
     ('#FOR1,2/,n,(n,n),;,/', '(1,1);(2,2)', None, {}),
     ('#FOREACH(1,2)/,n,(n,n),;,/', '(1,1);(2,2)', None, {}),
     ('#IF(1)/,(a,b),c,/', '(a,b)', None, {}),
